@@ -452,6 +452,10 @@ class _Gen:
                 if cross:
                     # a Go function of another package has no ABI0 symbol: the target is implemented in assembly
                     self.add(H, "a", f"func {name}{sig}")
+                    # the Go declaration is also used from Go code of its own package
+                    hg = self.helper("gc", n, "func", True, H)
+                    self.add(H, "a", f"//go:noinline\nfunc {hg}{sig} {{ {'' if is_test else 'return '}{name}({'t' if is_test else 'k'}) }}")
+                    self.add(P, "a", f"var _ = {self.p.deppkg}.{hg}\n\nfunc init() {{ {keep}({self.p.deppkg}.{hg}) }}")
                     if is_test:
                         self.asm[H].append(f"TEXT ·{name}(SB),NOSPLIT,$0-8\n\tRET\n")
                     else:
@@ -493,6 +497,14 @@ class _Gen:
             mult = {"GoAsmHConst": 1, "GoAsmHSize": A, "GoAsmHField": A}[view]
             self.asm[P].append(f"TEXT ·{hs}(SB),NOSPLIT,$0-8\n\tMOVQ ${macro}, AX\n\tMOVQ AX, ret+0(FP)\n\tRET\n")
             return self.emit_run(c, f"{use}\treturn int({hs}())*{mult} + k", lambda k: val + k)
+        if view == "StructConversion":
+            f2 = self.helper("c2", n, "field", True, H)
+            sd, sm = self.helper("sd", n, "type", True, H), self.helper("sm", n, "type", False, P)
+            self.add(H, "a", f"type {sd} struct {{\n\t{name} int\n\t{f2} string `json:\"zqvtag{n}\"`\n}}")
+            self.add(P, "a", f"type {sm} struct {{\n\t{name} int\n\t{f2} string\n}}")
+            body = (f"\td := {self.p.deppkg}.{sd}{{{name}: {A} + k, {f2}: \"ab\"}}\n\tm := {sm}(d)\n\t{keep}(m)\n\tback := {self.p.deppkg}.{sd}(m)\n"
+                    f"\treturn m.{name} + len(back.{f2})")
+            return self.emit_run(c, body, lambda k: A + k + 2)
         if view == "LdflagsX":
             inj = f"zqvinj{n}{self.tag}v"
             self.add(H, "a", f"var {name} = \"zqvorig{n}\"")
@@ -524,15 +536,6 @@ class _Gen:
         self.add("main", "a", f"var {cv} = 5\n\n//go:noinline\nfunc {cf}(k int) int {{\n\tacc := k\n\tstep := func(d int) func() int {{\n\t\treturn func() int {{ acc += d; {cv}++; return acc }}\n\t}}\n"
                               f"\ta, b := step(2), step(3)\n\ta()\n\tb()\n\treturn a() + {cv}\n}}")
         call(1, f"{cf}(k)", lambda k: k + 7 + 8)
-        # E2: conversion between identical struct types of two packages
-        f1, f2 = H("xc1", "field", True, "dep"), H("xc2", "field", True, "dep")
-        sd, sm = H("xsd", "type", True, "dep"), H("xsm", "type", False, "main")
-        cf2 = H("xcg", "func", False, "main")
-        self.add("dep", "a", f"type {sd} struct {{\n\t{f1} int\n\t{f2} string `json:\"zqvtag{t}\"`\n}}")
-        self.add("main", "a", f"type {sm} struct {{\n\t{f1} int\n\t{f2} string\n}}\n\n//go:noinline\nfunc {cf2}(k int) int {{\n\td := {D}.{sd}{{{f1}: k, {f2}: \"ab\"}}\n"
-                              f"\tm := {sm}(d)\n\t{self.keep('main')}(m)\n\treturn m.{f1}*2 + len(m.{f2})\n}}")
-        call(2, f"{cf2}(k)", lambda k: 2 * k + 2)
-        self.conv_fields = (f1, f2)
         # E3: blank import registering itself from init; E6: init order across packages
         reg, regd, regv = H("xrg", "func", True, "dep"), H("xrd", "func", True, "dep"), H("xrv", "pkgvar", False, "dep")
         self.add("dep", "a", f"var {regv} = 1\n\nfunc init() {{ {regv} *= 10 }}\n\nfunc {reg}(v int) {{ {regv} += v }}\n\n//go:noinline\nfunc {regd}() int {{ return {regv} }}")
@@ -652,7 +655,7 @@ class _Gen:
         return p
 
 
-SYM_VIEWS = {"LinknameLocal", "LinknameForeign", "LinknameMethod", "LinknamePtrMethod", "AsmQualified", "AsmUnqualified",
+SYM_VIEWS = {"StructConversion", "LinknameLocal", "LinknameForeign", "LinknameMethod", "LinknamePtrMethod", "AsmQualified", "AsmUnqualified",
              "GoAsmHSize", "GoAsmHField", "GoAsmHConst", "LdflagsX"}
 
 
@@ -814,7 +817,9 @@ class Matrix:
             env["GARBLE_VERIF_NAMES"] = "1"
         tmpdir = sb.tmpdir
         if tmp_inside:
-            tmpdir = d / f"tmp_zqv{prog.tag}in"
+            # inside the directory of the main package (which has assembly): the go command's own -trimpath
+            # entry for that directory is then a shorter prefix of every file garble writes
+            tmpdir = d / prog.maindir / f"tmp_zqv{prog.tag}in"
             tmpdir.mkdir(exist_ok=True)
             env["TMPDIR"] = str(tmpdir)
         if extra_env:
@@ -848,12 +853,17 @@ class Matrix:
             for pi, prog in enumerate(progs):
                 if select(pi, ci):
                     out[(prog.tag, cfg.name)] = self.garble(prog, cfg, tmp_inside(pi, ci))
-        with ThreadPoolExecutor(max_workers=workers or min(len(cfgs), int(os.environ.get("VERIF_NAMING_PARALLEL", "3")))) as ex:
+        with ThreadPoolExecutor(max_workers=workers or min(len(cfgs), parallelism())) as ex:
             list(ex.map(work, range(len(cfgs))))
         return out
 
     def cleanup(self):
         rmtree(self.root)
+
+
+def parallelism(default=3):
+    """How many garble / go builds the checks run at once (VERIF_NAMING_PARALLEL)."""
+    return max(1, int(os.environ.get("VERIF_NAMING_PARALLEL", str(default))))
 
 
 def quick_select(tier, seed):
